@@ -14,6 +14,7 @@ for f_ in (F.FIELD_ORDER_FILE, F.FIELD_NAMES_FILE, F.ADT_NAMES_FILE):
     if os.path.exists(f_):
         os.remove(f_)
 out = {}
+sigs_ = {}
 dup = set()
 for feature in ("", "uuid"):
     fx = F.Facts(F.extract(feature=feature)[0])
@@ -27,9 +28,12 @@ for feature in ("", "uuid"):
         if k in out and out[k] != names:
             dup.add(k)
         out[k] = names
+        if not b.get("reachable_pub"):
+            sigs_[k] = [[F._erase_lt(x_) for x_ in (b.get("inputs") or [])], F._erase_lt(b.get("output") or "")]
 for k in dup:
     del out[k]
 json.dump(out, open(F.PARAM_NAMES_FILE, "w"), indent=0, sort_keys=True)
+json.dump({k_: v_ for k_, v_ in sigs_.items() if k_ in out}, open(F.PARAM_TYPES_FILE, "w"), indent=0, sort_keys=True)
 print("%d functions, %d ambiguous keys dropped" % (len(out), len(dup)))
 fo = {}
 for feature in ("", "uuid"):
